@@ -11,6 +11,7 @@ the equation AS WRITTEN IN THE SOURCE holds on the output (source-level oracle: 
 from __future__ import annotations
 
 import itertools
+import os
 import math
 from fractions import Fraction
 
@@ -20,7 +21,7 @@ import z3
 from symx import sreal as S
 from symx import npproxy
 from symx.gmath import EXPF
-from symx.lift import lift_matrix, exp_log_axioms, same_cell
+from symx.lift import lift_matrix, exp_log_axioms, same_cell, CutStore, cut_array, prove_by_unfolding
 from symx.refeval import Equation
 from symx.series_tools import load_irispie
 from symx.concolic import model_values
@@ -128,11 +129,12 @@ def _lifted_run(ir, ss, m, db, span, plan, order):
         data = var.data
         names = tuple(ds.names)
         obj, syms = lift_matrix(data, names, constant_rows=("a", "b"))
-        var.data = obj
-        cap.update(names=names, inp=obj.copy(), syms=syms, base_columns=tuple(ds.base_columns), periods=tuple(ds.periods))
+        store = CutStore()
+        var.data = cut_array(obj, store)
+        cap.update(names=names, inp=obj.copy(), syms=syms, base_columns=tuple(ds.base_columns), periods=tuple(ds.periods), store=store)
         try:
             out = real(model_v, ds, plan_, vid, **kw)
-            cap["out"] = var.data.copy()
+            cap["out"] = np.array(var.data, dtype=object)
         finally:
             var.data = data
         return out
@@ -212,9 +214,13 @@ def _decide(run, key, cap, claims, case, finding):
         return
     run.reach_ok += 1
     bad, mdl_bad = [], None
+    store = cap["store"]
     for i, (lab, e, ax) in enumerate(eqs):
-        r, mdl = run.prove(f"{key}:{lab}", e, pos + ax, timeout_ms=60000, nl=True,
-                           sample={"structure": case, "obligation": lab, "claim": str(e)[:240]} if i == 0 else None)
+        r, mdl, steps = prove_by_unfolding(run, f"{key}:{lab}", e, store, pos, exp_log_axioms,
+                                           sample={"structure": case, "obligation": lab} if i == 0 else None)
+        run.extra["unfolding_steps_max"] = max(run.extra.get("unfolding_steps_max", 0), steps)
+        if steps > 1 and os.environ.get("C17_DEBUG"):
+            print("STEPS", steps, key, lab, str(e)[:200])
         if r == "unsat":
             continue
         if r == "sat":
@@ -288,7 +294,9 @@ def main(run):
     run.bounds["values"] = "every input cell (variables, residuals, exogenized data, lags) an independent positive real; each parameter one positive real"
     run.assumptions += ["cells are mathematical reals; float rounding outside the claim",
                         "LOG/EXP uninterpreted with normalising constructors; EXP(.)>0 asserted for occurring applications",
-                        "all lifted inputs positive (so every log the model takes is defined)"]
+                        "all lifted inputs positive (so every log the model takes is defined)",
+                        "cut points: each value written by the kernel is a fresh symbol with a recorded definition; a claim is first decided "
+                        "with only the definitions of the symbols it mentions (earlier cells arbitrary: an inductive step), then exactly"]
     run.outside += ["models with more than 3 equations or lags > 2", "multiple variants", "user context functions in equations"]
     with npproxy.installed(proxy, ss, em, pt):
         for idx, (tpl, T1, T2, nper) in enumerate(_structures(run.tier)):
